@@ -409,6 +409,9 @@ fn new_out() -> CalcOut {
     CalcOut { stats: Stats::default(), findings: vec![], samples: vec![], paths: 0, forks: 0, truncated: 0 }
 }
 
+fn panic_msg_ref(p: &Box<dyn std::any::Any + Send>) -> String {
+    p.downcast_ref::<String>().cloned().or_else(|| p.downcast_ref::<&str>().map(|s| s.to_string())).unwrap_or_else(|| "panic".into())
+}
 fn panic_msg(p: Box<dyn std::any::Any + Send>) -> String {
     if let Some(s) = p.downcast_ref::<String>() {
         s.clone()
@@ -1210,10 +1213,180 @@ pub fn c18(args: &Args) -> i32 {
         "reference": "dual numbers; comparisons keep their value, if/else differentiate per operand, so the reference derivative is ite(c, f', g')",
         "forms": ["flat", "deep"],
     }));
-    finish(args, "C18", vec![p1, p2], vec![], json!({
+    let p3 = part_value_kinds(args);
+    finish(args, "C18", vec![p1, p2, p3], vec![], json!({
         "functions": ["partial::make_partial_derivative_ops (if, else, comparison entries)", "partial::partial_derisval", "partial::partial_derivative_inner", "DeepEx::operate_bin"],
         "assumptions": ["reals for numbers; the value kinds (Int/Float mixing, From<f32>, From<u8>, the if/else/comparison functions themselves) are engine K's cells", "a condition is not differentiated, so no assumption about branch boundaries is needed for the expression-level claim"],
         "outside": ["arrays (documented as unsupported by differentiation)", "piecewise nesting deeper than 2"],
+    }))
+}
+
+// ---------------------------------------------------------------------------------------------
+// C18, value kinds: the derivative rules create their constants through From<u8> (Int) and From<f32> (Float); which
+// one they pick decides whether an integer polynomial can still be evaluated at integer points (Val's `^` has no
+// (Int, Float) case). Engine S over the reals cannot see kinds, so this part runs the REAL parse_val::<i32,f64>,
+// partial and eval on concrete operands of every kind pattern and compares with an exact rational dual-number
+// evaluation. Plain execution, no solver: path-level (the kind of a result does not depend on the payload).
+// ---------------------------------------------------------------------------------------------
+
+type Q = (i128, i128);
+fn qn(n: i128, d: i128) -> Q {
+    fn g(a: i128, b: i128) -> i128 {
+        if b == 0 { a.abs() } else { g(b, a % b) }
+    }
+    let s = if d < 0 { -1 } else { 1 };
+    let k = g(n, d).max(1);
+    (s * n / k, s * d / k)
+}
+fn qadd(a: Q, b: Q) -> Q { qn(a.0 * b.1 + b.0 * a.1, a.1 * b.1) }
+fn qsub(a: Q, b: Q) -> Q { qn(a.0 * b.1 - b.0 * a.1, a.1 * b.1) }
+fn qmul(a: Q, b: Q) -> Q { qn(a.0 * b.0, a.1 * b.1) }
+fn qpow(a: Q, e: u32) -> Q {
+    let mut r = (1, 1);
+    for _ in 0..e {
+        r = qmul(r, a);
+    }
+    r
+}
+
+/// (value, derivative) over the rationals; None = the piecewise `none` / outside the supported fragment
+fn dual_q(t: &Tree, env: &BTreeMap<String, Q>, var: &str) -> Option<(Q, Q)> {
+    match t {
+        Tree::Lit(s) => sym::parse_rat(s).map(|(n, d)| ((n as i128, d as i128), (0, 1))),
+        Tree::Var(n) => env.get(n).map(|q| (*q, if n == var { (1, 1) } else { (0, 1) })),
+        Tree::Paren(a) => dual_q(a, env, var),
+        Tree::Un(kk, a) => {
+            let (v, d) = dual_q(a, env, var)?;
+            match table::repr_of(*kk).as_str() {
+                "-" => Some((qsub((0, 1), v), qsub((0, 1), d))),
+                "+" => Some((v, d)),
+                _ => None,
+            }
+        }
+        Tree::Bin(kk, a, b) | Tree::Call(kk, a, b) => {
+            let r = table::repr_of(*kk);
+            if r == "else" {
+                return match dual_q(a, env, var) {
+                    Some(x) => Some(x),
+                    None => dual_q(b, env, var),
+                };
+            }
+            if r == "if" {
+                let (c, _) = dual_q(b, env, var)?;
+                return if c.0 != 0 { dual_q(a, env, var) } else { None };
+            }
+            let (x, dx) = dual_q(a, env, var)?;
+            let (y, dy) = dual_q(b, env, var)?;
+            let cmp = |c: bool| Some((if c { (1, 1) } else { (0, 1) }, (0, 1)));
+            let lt = x.0 * y.1 < y.0 * x.1;
+            let eq = x == y;
+            match r.as_str() {
+                "+" => Some((qadd(x, y), qadd(dx, dy))),
+                "-" => Some((qsub(x, y), qsub(dx, dy))),
+                "*" => Some((qmul(x, y), qadd(qmul(dx, y), qmul(x, dy)))),
+                "^" => {
+                    // literal non-negative integer exponent only
+                    if y.1 != 1 || y.0 < 1 || y.0 > 6 || dy.0 != 0 {
+                        return None;
+                    }
+                    let e = y.0 as u32;
+                    Some((qpow(x, e), qmul(qmul((e as i128, 1), qpow(x, e - 1)), dx)))
+                }
+                "<" => cmp(lt),
+                ">" => cmp(!lt && !eq),
+                "<=" => cmp(lt || eq),
+                ">=" => cmp(!lt),
+                "==" => cmp(eq),
+                "!=" => cmp(!eq),
+                _ => None,
+            }
+        }
+        Tree::Konst(_) => None,
+    }
+}
+
+pub fn part_value_kinds(args: &Args) -> Part {
+    use exmex::prelude::*;
+    use exmex::Val;
+    let quick = args.tier_quick();
+    let t0 = Instant::now();
+    let mut tab = crate::extra::val_table();
+    tab.arithmetic = true;
+    table::set_table(&tab);
+    let o = ops();
+    let (kif, kelse) = (k("if"), k("else"));
+    let p = |b: Tree, e: &str| Tree::bin(o.pow, b, l(e));
+    let mut pool: Vec<Tree> = vec![];
+    let bases = [v("x"), Tree::bin(o.add, Tree::bin(o.mul, l("2"), v("x")), l("1")), Tree::bin(o.add, v("x"), v("y")), Tree::bin(o.mul, v("x"), v("y")), Tree::bin(o.sub, v("y"), Tree::bin(o.mul, l("3"), v("x")))];
+    for b in &bases {
+        for e in ["1", "2", "3", "4", "5"] {
+            pool.push(p(b.clone(), e));
+            pool.push(Tree::bin(o.mul, l("3"), p(b.clone(), e)));
+            pool.push(Tree::bin(o.add, p(b.clone(), e), Tree::bin(o.mul, v("x"), v("y"))));
+            pool.push(Tree::bin(o.mul, p(b.clone(), e), p(v("y"), "2")));
+            pool.push(Tree::un(o.sub, p(b.clone(), e)));
+            if !quick || e == "3" {
+                pool.push(Tree::bin(kelse, Tree::bin(kif, p(b.clone(), e), Tree::bin(k(">"), v("x"), l("1"))), Tree::bin(o.mul, l("3"), v("x"))));
+                pool.push(Tree::bin(kelse, Tree::bin(kif, Tree::bin(o.mul, v("x"), v("x")), Tree::bin(k("<"), v("x"), v("y"))), p(b.clone(), e)));
+                pool.push(p(p(b.clone(), e), "2"));
+            }
+        }
+    }
+    let points: [(&str, Val<i32, f64>, Q); 5] = [("Int(2)", Val::Int(2), (2, 1)), ("Int(-3)", Val::Int(-3), (-3, 1)), ("Float(1.5)", Val::Float(1.5), (3, 2)), ("Int(1)", Val::Int(1), (1, 1)), ("Float(-2.0)", Val::Float(-2.0), (-2, 1))];
+    let mut out = new_out();
+    let _ = std::panic::take_hook();
+    std::panic::set_hook(Box::new(|_| {}));
+    for t in &pool {
+        let text = render(t, &Style::default());
+        let names = t.var_names();
+        out.stats.programs += 1;
+        out.stats.note_text(0, &text);
+        for form in ["flat", "deep"] {
+            for choice in crate::tree::tuples(points.len(), names.len()) {
+                let env: BTreeMap<String, Q> = names.iter().cloned().zip(choice.iter().map(|&c| points[c].2)).collect();
+                let vals: Vec<Val<i32, f64>> = choice.iter().map(|&c| points[c].1.clone()).collect();
+                let label: Vec<&str> = choice.iter().map(|&c| points[c].0).collect();
+                for (vi, var) in names.iter().enumerate() {
+                    let Some((fv, fd)) = dual_q(t, &env, var) else { continue };
+                    // stay inside i32 (overflow is an error value by C16/C17, not the subject here)
+                    if fv.0.abs() > 1_000_000 || fd.0.abs() > 1_000_000 {
+                        continue;
+                    }
+                    out.stats.vcs += 1;
+                    let r = catch_unwind(AssertUnwindSafe(|| -> Result<Val<i32, f64>, String> {
+                        if form == "flat" {
+                            let e = exmex::parse_val::<i32, f64>(&text).map_err(|e| e.msg().to_string())?;
+                            let d = e.partial(vi).map_err(|e| e.msg().to_string())?;
+                            d.eval(&vals).map_err(|e| e.msg().to_string())
+                        } else {
+                            let e = exmex::DeepEx::<Val<i32, f64>, exmex::ValOpsFactory<i32, f64>, exmex::ValMatcher>::parse(&text).map_err(|e| e.msg().to_string())?;
+                            let d = e.partial(vi).map_err(|e| e.msg().to_string())?;
+                            d.eval(&vals).map_err(|e| e.msg().to_string())
+                        }
+                    }));
+                    let want = fd.0 as f64 / fd.1 as f64;
+                    let bad = match &r {
+                        Err(p2) => Some(format!("panic: {}", panic_msg_ref(p2))),
+                        Ok(Err(m)) => Some(format!("error: {m}")),
+                        Ok(Ok(Val::Int(n))) => if (*n as f64 - want).abs() > 1e-9 { Some(format!("Int({n})")) } else { None },
+                        Ok(Ok(Val::Float(x))) => if (*x - want).abs() > 1e-9 * want.abs().max(1.0) { Some(format!("Float({x})")) } else { None },
+                        Ok(Ok(other)) => Some(format!("{other:?}")),
+                    };
+                    if let Some(got) = bad {
+                        let f = mk_finding("value-kind", form, &tab, &text, Some(t), got.clone(), format!("{}/{}", fd.0, fd.1),
+                            format!("d/d{var} of `{text}` at {names:?} = {label:?}: the real parse_val::<i32,f64> derivative evaluates to {got}, the exact derivative is {}/{}", fd.0, fd.1));
+                        push(&mut out, f);
+                    }
+                }
+            }
+        }
+    }
+    let _ = std::panic::take_hook();
+    to_part("value-kinds", out, t0.elapsed().as_secs_f64(), json!({
+        "pool": format!("{} integer polynomials: (x | 2*x+1 | x+y | x*y | y-3*x)^e for e = 1..5, scaled, added to x*y, multiplied by y^2, negated, as a branch of `.. if x > 1 else 3*x` / `x*x if x < y else ..`, squared", pool.len()),
+        "points": "every assignment of Int(2), Int(-3), Float(1.5), Int(1), Float(-2.0) to the variables (all kind patterns), flat and deep",
+        "check": "the REAL parse_val::<i32,f64>(text).partial(i).eval(point) is a number equal to the exact rational dual-number derivative (|.| <= 10^6 so that i32 overflow is not involved)",
+        "note": "concrete execution without a solver (path-level): the KIND of the constants that the derivative rules create (From<u8> vs From<f32>) decides whether `Int ^ constant` is defined; the real-valued claim is the solver-decided part above",
     }))
 }
 
@@ -1523,6 +1696,10 @@ pub fn c10(args: &Args) -> i32 {
         Tree::bin(o.add, Tree::bin(o.add, v("a"), v("b")), v("c")),
         Tree::bin(o.mul, Tree::bin(o.mul, v("c"), v("d")), v("f")),
         Tree::bin(o.sub, Tree::bin(o.mul, v("b"), v("c")), v("g")),
+        // a number first, a tighter operator, then a weaker one (an operand whose node list must stay a group when a
+        // number is applied on its left)
+        Tree::bin(o.add, Tree::bin(o.mul, l("2"), v("x")), v("y")),
+        Tree::bin(o.sub, Tree::bin(o.pow, l("2"), v("x")), v("y")),
     ];
     let mut pool = pool;
     if !quick {
